@@ -128,6 +128,11 @@ func (r *Runner) Resolve(ctx context.Context, v Expression) (result interface{},
 func try2Float64(v interface{}) interface{} {
 	switch n := v.(type) {
 	case *decimal.Big:
+		if n.IsFinite() {
+			// drop trailing zeros first: Float64 converts coefficient and power of
+			// ten separately, which is only exact while the coefficient is small
+			n = newDecimalBig().Copy(n).Reduce()
+		}
 		r, _ := n.Float64()
 		return r
 	}
